@@ -732,3 +732,10 @@ M("e2e-enclose-skips-leading-word-class", ["C17"], [(PRE, '        pattern = f"{
     '        body = self._concat_conditional_group()\n        pattern = ("" if body.startswith("\\\\w") and len(body) > 12 else pre) + f"{body}{pre}"\n        return __class__(pattern, escape=False)')], rule="R-E2E")
 M("e2e-not-enclosed-drops-group-for-long-alternation", ["C18"], [(PRE, '        pattern = f"(?<!{pre}){self._assert_conditional_group()}(?!{pre})"',
     '        pattern = f"(?<!{pre}){self._assert_conditional_group() if len(str(self)) < 40 else str(self)}(?!{pre})"')], rule="R-E2E")
+
+# ---- renaming of private (name-mangled) helpers: anchors are located by role, every check stays silent
+M("benign-rename-private-pre", ["C01", "C02", "C03", "C05", "C08", "C09", "C10", "C11", "C12", "C13", "C14", "C20"],
+  [(PRE, "__escape(", "__escape_text(", 0), (PRE, "__infer_type(", "__classify(", 0), (PRE, "__extract_text(", "__read_file(", 0),
+   (PRE, "__iterate_match_objects(", "__scan(", 0)], expect="silent")
+M("benign-rename-private-classes", ["C03", "C06", "C07", "C20"],
+  [(CLS, "__or(", "__union(", 0), (CLS, "__sub(", "__difference(", 0)], expect="silent")
